@@ -359,43 +359,42 @@ where
     let topic_cache = self.acquire_the_topic_cache_guard();
 
     let mut read_state_ref = self.read_state.lock().unwrap();
-    let latest_instant = read_state_ref.latest_instant;
+    let mut latest_instant = read_state_ref.latest_instant;
     let (last_read_sn, hash_to_key_map) = read_state_ref.get_sn_map_and_hash_map();
 
     // loop in case we get a sample that should be ignored, so we try next.
     loop {
-      let (timestamp, cc) =
-        match Self::try_take_undecoded(is_reliable, &topic_cache, latest_instant, last_read_sn)
-          .next()
-        {
-          None => return Ok(None), // no more data available right now
-          Some((ts, cc)) => (ts, cc),
-        };
+      let next_change =
+        Self::try_take_undecoded(is_reliable, &topic_cache, latest_instant, last_read_sn).next();
+      let (timestamp, cc) = match next_change {
+        None => {
+          // no more data available right now, but remember what was skipped
+          read_state_ref.latest_instant = latest_instant;
+          return Ok(None);
+        }
+        Some((ts, cc)) => (ts, cc),
+      };
 
       let result = self.deserialize_with(timestamp, cc, hash_to_key_map, decoder.clone());
 
+      // make copies of guid and SN to calm down borrow checker.
+      let writer_guid = cc.writer_guid;
+      let sequence_number = cc.sequence_number;
+
       if let Err(ReadError::UnknownKey { .. }) = result {
-        // ignore unknown key hash, continue looping
+        // Ignore unknown key hash and continue looping, but advance the read
+        // pointers past this change. Otherwise we would fetch the same change
+        // again, forever.
+        latest_instant = max(latest_instant, timestamp);
+        last_read_sn.insert(writer_guid, sequence_number);
       } else {
         // return with this result
-        // make copies of guid and SN to calm down borrow checker.
-        let writer_guid = cc.writer_guid;
-        let sequence_number = cc.sequence_number;
         // Advance read pointer, error or not, because otherwise
         // the SimpleDatareader is stuck.
         read_state_ref.latest_instant = max(latest_instant, timestamp);
         read_state_ref
           .last_read_sn
           .insert(writer_guid, sequence_number);
-
-        // // Debug sanity check:
-        // use crate::Duration;
-        // if Timestamp::now().duration_since(timestamp) > Duration::from_secs(1) {
-        //   error!("Sample delayed by {:?} , Topic = {} {:?}",
-        //     Timestamp::now().duration_since(timestamp), self.topic().name(),
-        //     sequence_number,
-        //      );
-        // }
 
         return result.map(Some);
       }
